@@ -43,7 +43,7 @@ def c15(prop, tier, replay):
         if replay:
             rp = json.load(open(replay))
             path = os.path.join(work, "replay.ndjson")
-            vf.run([bins["rec-tt"]] + rp["recorder_args"] + ["-out", path], timeout=600)
+            vf.run_recorder([bins["rec-tt"]] + rp["recorder_args"] + ["-out", path], timeout=600)
             _, mm, _ = tc.validate_trace(work, "TTTrace", path)
             bad = [m for m in mm if m["rule"].startswith(("C15/", "PANIC/"))]
             for m in bad[:3]:
@@ -72,7 +72,7 @@ def c15(prop, tier, replay):
             args = ["-n", str(nev), "-seed", str(vf.seed() * 7919 + i)]
 
             def record(path, args=args):
-                vf.run([bins["rec-tt"]] + args + ["-out", path], timeout=900)
+                vf.run_recorder([bins["rec-tt"]] + args + ["-out", path], timeout=900)
             return dict(name="C15-%d" % i, record=record, args=args)
         res = tc.run_shards(work, "TTTrace", [job(i) for i in range(vf.NCPU)], timeout=3000)
         infra = [m for m in res.mm if m["rule"].startswith("INFRA/")]
